@@ -377,5 +377,63 @@ def invariant(rec):
                      'all classes x n_dim in 1..3 x n_ids in 1..3; distinct by (class, d, N)', exhaustive=True)
 
 
+def integer_inputs(rec):
+    """bounded (never counted as proved): integer-typed parameter vectors / individual parameters are valid inputs and must give what the same
+    numbers give as floats (the dtype of an input must not leak into a result buffer)"""
+    import chi as real
+
+    def models():
+        for d in (1, 2):
+            yield 'GaussianModel(%d)' % d, (lambda d=d: real.GaussianModel(n_dim=d))
+            yield 'GaussianModel(%d, non-centred)' % d, (lambda d=d: real.GaussianModel(n_dim=d, centered=False))
+            yield 'LogNormalModel(%d)' % d, (lambda d=d: real.LogNormalModel(n_dim=d))
+            yield 'LogNormalModel(%d, non-centred)' % d, (lambda d=d: real.LogNormalModel(n_dim=d, centered=False))
+            yield 'TruncatedGaussianModel(%d)' % d, (lambda d=d: real.TruncatedGaussianModel(n_dim=d))
+            yield 'PooledModel(%d)' % d, (lambda d=d: real.PooledModel(n_dim=d))
+            yield 'HeterogeneousModel(%d)' % d, (lambda d=d: real.HeterogeneousModel(n_dim=d, n_ids=3))
+            yield 'Covariate(Gaussian(%d), Linear(2))' % d, (lambda d=d: real.CovariatePopulationModel(real.GaussianModel(n_dim=d), real.LinearCovariateModel(n_cov=2)))
+            yield 'Covariate(LogNormal(%d, non-centred), Linear(1))' % d, (lambda d=d: real.CovariatePopulationModel(real.LogNormalModel(n_dim=d, centered=False), real.LinearCovariateModel(n_cov=1)))
+        yield 'Composed[Gaussian(nc), LogNormal(nc)]', (lambda: real.ComposedPopulationModel([real.GaussianModel(centered=False), real.LogNormalModel(centered=False)]))
+        yield 'Composed[Covariate(Gaussian), Pooled]', (lambda: real.ComposedPopulationModel([real.CovariatePopulationModel(real.GaussianModel(), real.LinearCovariateModel()), real.PooledModel()]))
+    cases = [lab for lab, _ in models()]
+    mk = dict(models())
+
+    def one(lab):
+        m = mk[lab]()
+        m.set_n_ids(3)
+        n, d, nc = m.n_parameters(), m.n_dim(), m.n_covariates()
+        th_i = [1 + (k % 2) for k in range(n)]                      # integers 1, 2, 1, ...
+        psi_i = np.array([[1 + ((i + j) % 3) for j in range(d)] for i in range(3)])
+        if lab.startswith('PooledModel'):
+            psi_i = np.array([[th_i[j] for j in range(d)] for i in range(3)])              # inside the support: every individual carries the pooled value
+        if lab.startswith('HeterogeneousModel'):
+            psi_i = np.array([[th_i[i * d + j] for j in range(d)] for i in range(3)])
+        if lab == 'Composed[Covariate(Gaussian), Pooled]':
+            psi_i = np.array([[1 + (i % 3), th_i[-1]] for i in range(3)])
+        kw = {'covariates': 0.37 + 0.21 * np.arange(3 * nc).reshape(3, nc)} if nc else {}      # fractional covariates
+        res = []
+        # (arrays only: the documented parameter type is numpy.ndarray; plain lists are not accepted by every model)
+        for th, psi in ((np.array(th_i, dtype=int), psi_i.astype(float)), (np.array(th_i, dtype=int), psi_i.astype(int)), (np.array(th_i, dtype=float), psi_i.astype(float))):
+            try:
+                ll = m.compute_log_likelihood(th, psi, **kw)
+                sens = m.compute_sensitivities(th, psi, **kw)
+                ip = m.compute_individual_parameters(th, psi, **kw)
+                red = m.compute_sensitivities(th, psi, reduce=True, **kw)
+            except Exception as ex:
+                return '%s: evaluation at %s-typed inputs raises %r' % (lab, th.dtype, ex)
+            if not np.isfinite(ll):
+                return '%s: the harness instance is outside the support (log-likelihood %r)' % (lab, ll)
+            res.append([np.asarray(ll, dtype=float), np.asarray(sens[1], dtype=float), np.asarray(sens[2], dtype=float), np.asarray(ip, dtype=float), np.asarray(red[1], dtype=float)])
+        for k, what in enumerate(('integer parameters', 'integer parameters and individual parameters')):
+            for u, v, nm in zip(res[k], res[2], ('log-likelihood', 'sensitivities w.r.t. the individual parameters', 'sensitivities w.r.t. the population parameters', 'individual parameters', 'hierarchical sensitivities')):
+                if np.shape(u) != np.shape(v) or not np.allclose(u, v, rtol=1e-12, atol=1e-12, equal_nan=True):
+                    return '%s: %s differ between %s and the same numbers as floats (%s vs %s)' % (lab, nm, what, np.round(u, 5).tolist(), np.round(v, 5).tolist())
+        return None
+    rec.native_check('integer.inputs', ['chi._population_models.*.compute_log_likelihood', 'chi._population_models.*.compute_sensitivities', 'chi._population_models.*.compute_individual_parameters',
+                                        'chi._covariate_models.LinearCovariateModel.compute_population_parameters'], cases, one,
+                     'every elementary / covariate / composed population model (n_dim 1, 2) at integer-valued parameters and individual parameters given as integer arrays and as float arrays, '
+                     'fractional covariates; distinct by model', exhaustive=True)
+
+
 from contracts import c05b
-TASKS = [(k, (lambda rec, k=k: build(rec, k))) for k in KINDS] + [('invariant', invariant)] + c05b.tasks()
+TASKS = [(k, (lambda rec, k=k: build(rec, k))) for k in KINDS] + [('invariant', invariant), ('integer-inputs', integer_inputs)] + c05b.tasks()
